@@ -35,7 +35,7 @@ Section POSTSPEC_PROOFS.
   Lemma fix_place_map (g : Z -> V) n (e : pent) : 0 <= n ->
     fix_place from step d n (map g (zrange (Z.to_nat n) 0)) e = map (slot_upd g e) (zrange (Z.to_nat n) 0).
   Proof.
-    intros Hn. unfold fix_place, LogqlMetricPost.slot_upd, LogqlMetricPost.covers, win_start.
+    intros Hn. unfold fix_place, LogqlMetricPost.slot_upd, LogqlMetricPost.covers, win_start. cbv zeta.
     set (i0 := Z.quot (Z.quot (pe_ts e) d * d - from) step).
     set (i1 := Z.quot (Z.quot (pe_ts e) d * d + d - from) step).
     destruct (Z.ltb i1 0 || Z.leb n i0) eqn:Eskip.
@@ -54,6 +54,8 @@ Section POSTSPEC_PROOFS.
   Definition EXP (n : Z) := export_run is_zero zero from step d n.
 
   Lemma slot_val_cons g (e : pent) r : slot_val g (e :: r) = slot_val (slot_upd g e) r.
+  Proof. reflexivity. Qed.
+  Lemma slot_upd_eq g (e : pent) i : slot_upd g e i = if covers e i then pe_val e else g i.
   Proof. reflexivity. Qed.
 
   Lemma runs_shape (es : list pent) :
@@ -132,7 +134,7 @@ Section POSTSPEC_PROOFS.
     induction run as [|e r IH]; intros g i.
     - left. split; [reflexivity|]. intros x [].
     - rewrite slot_val_cons. destruct (IH (slot_upd g e) i) as [[Hv Hn]|[r1 [x [r2 [-> [Hc [Hv Hl]]]]]]].
-      + unfold LogqlMetricPost.slot_upd in Hv. destruct (covers e i) eqn:Ec.
+      + rewrite slot_upd_eq in Hv. destruct (covers e i) eqn:Ec.
         * right. exists [], e, r. cbn. auto.
         * left. split; [exact Hv|]. intros x [<-|Hx]; [exact Ec|now apply Hn].
       + right. exists (e :: r1), x, r2. cbn. auto.
